@@ -4,6 +4,8 @@ Neither runtime contains onnxscript code.  Results are ("ok", [arrays]) or ("err
 """
 from __future__ import annotations
 
+import os
+
 import numpy as np
 import onnx
 
@@ -26,7 +28,76 @@ def _to_bytes(model):
     return model.SerializeToString()
 
 
+class _Server:
+    """One ORT child process per check worker (started lazily, restarted after a crash)."""
+
+    proc = None
+    crashes = 0
+    counter = 0
+
+    @classmethod
+    def start(cls):
+        import subprocess
+        import sys
+
+        cls.proc = subprocess.Popen([sys.executable, "-W", "ignore", "-m", "vf.ort_server"], stdin=subprocess.PIPE, stdout=subprocess.PIPE,
+                                    stderr=subprocess.DEVNULL, cwd=os.environ.get("VERIF_HOME") or os.path.dirname(os.path.dirname(os.path.abspath(__file__))))
+
+    @classmethod
+    def call(cls, msg, expect_reply=True):
+        import pickle
+
+        if cls.proc is None or cls.proc.poll() is not None:
+            cls.start()
+        try:
+            pickle.dump(msg, cls.proc.stdin, protocol=pickle.HIGHEST_PROTOCOL)
+            cls.proc.stdin.flush()
+            if not expect_reply:
+                return None
+            return pickle.load(cls.proc.stdout)
+        except (EOFError, BrokenPipeError, pickle.UnpicklingError, OSError):
+            cls.crashes += 1
+            try:
+                cls.proc.kill()
+            except Exception:  # noqa: BLE001
+                pass
+            cls.proc = None
+            return ("crash", "onnxruntime process died (signal) on this model/input")
+
+
+class RemoteSession:
+    def __init__(self, model_bytes):
+        _Server.counter += 1
+        self.key = _Server.counter
+        self.model_bytes = model_bytes
+        r = _Server.call(("load", self.key, model_bytes))
+        if r[0] != "ok":
+            raise RuntimeError(r[1])
+
+    def run(self, feeds):
+        r = _Server.call(("run", self.key, feeds))
+        if r[0] == "err" and r[1] == "session dropped":
+            rr = _Server.call(("load", self.key, self.model_bytes))
+            if rr[0] != "ok":
+                return rr
+            r = _Server.call(("run", self.key, feeds))
+        return r
+
+    def __del__(self):
+        try:
+            if _Server.proc is not None and _Server.proc.poll() is None:
+                _Server.call(("drop", self.key), expect_reply=False)
+        except Exception:  # noqa: BLE001
+            pass
+
+
+def ort_crashes():
+    return _Server.crashes
+
+
 def ort_session(model):
+    if os.environ.get("VERIF_ORT_ISOLATE", "1") != "0":
+        return RemoteSession(_to_bytes(model))
     ort = _get_ort()
     so = ort.SessionOptions()
     so.graph_optimization_level = ort.GraphOptimizationLevel.ORT_DISABLE_ALL
@@ -39,6 +110,11 @@ def ort_session(model):
 def run_ort(model, feeds, session=None):
     try:
         sess = session or ort_session(model)
+        if isinstance(sess, RemoteSession):
+            r = sess.run(feeds)
+            if r[0] == "ok":
+                return ("ok", [_norm(o) for o in r[1]])
+            return ("err", ("ORT-CRASH: " if r[0] == "crash" else "") + str(r[1]))
         names = {i.name for i in sess.get_inputs()} | {i.name for i in sess.get_overridable_initializers()}
         out = sess.run(None, {k: v for k, v in feeds.items() if k in names})
         return ("ok", [_norm(o) for o in out])
